@@ -1,11 +1,162 @@
 import NavisModel.Drv.Proto
-import NavisModel.Model.Forest
-/-! Extension commands for C05 (line protocol prefix `c05x.`). -/
+import NavisModel.Drv.Forest
+import NavisModel.Model.DistGen
+import NavisModel.Model.MeshGeo
+/-! Extension commands for C05 (line protocol prefix `c05x.`): the as-written models of `Model/DistX.lean`
+instantiated with the facts extracted from the current navis source (`Model/DistGen.lean`). -/
 namespace Navis.Drv.C05Ext
+open Navis.Forest Navis.Proto Navis.DistX Navis.Drv.Forest
 
-def run (cmd _rest : String) : Option String :=
+def parseLimit : String → Option LimitV
+  | "none" => some .pyNone
+  | "npinf" => some .npInf
+  | "inf" => some .otherInf
+  | s => s.toNat?.map .num
+
+/-- `*` (not given), `s:<id>` (scalar), `l:<ids>` (list / array) -/
+def parseFrom (s : String) : Option FromV :=
+  if s == "*" then some .none
+  else match s.splitOn ":" with
+    | ["s", i] => i.toInt?.map .scalar
+    | ["l", l] => (intList? l).map .list
+    | _ => none
+
+def showOpt : Option Nat → String
+  | some x => toString x
+  | none => "inf"
+
+def showB (b : Bool) : String := if b then "1" else "0"
+
+/-- rows in the frame's own order, then the entries under sorted row labels × sorted column labels -/
+def showLMat {α : Type} (sh : α → String) (m : LMat α) : String :=
+  let rs := sortedInts m.rows
+  let cs := sortedInts m.cols
+  s!"rows={showInts m.rows} cols={showInts m.cols} # " ++
+  " ".intercalate (rs.map fun r => s!"{r}=" ++ ",".intercalate (cs.map fun c => match m.get? r c with | some v => sh v | none => "?"))
+
+def lenOf (t : Table) (w : String) : Int → Int → Nat := if w == "1" then coordLen t else fun _ _ => 1
+
+def split3 (s : String) : Option (String × String × String) :=
+  match s.splitOn "|" with
+  | [a, b, c] => some (trim a, trim b, trim c)
+  | _ => none
+
+def parseEdges (s : String) : Option (List (Nat × Nat × Nat)) :=
+  (words s).mapM fun e => match e.splitOn ":" with
+    | [a, b, w] => do pure ((← a.toNat?), (← b.toNat?), (← w.toNat?))
+    | _ => none
+
+def run (cmd rest : String) : Option String :=
   match cmd with
   | "ping" => some "pong-c05x"
+  | "geow" => do
+    -- "fc|sp directed weighted limit from" | table
+    let (a, tb) ← split2 rest
+    let t ← parseTable tb
+    match words a with
+    | [br, d, w, lim, fr] => do
+      let cfg? := if br == "fc" then fcCfg? else spCfg?
+      match cfg? with
+      | none => pure "ERR:cfg"
+      | some cfg =>
+        let lim ← parseLimit lim
+        let fr ← parseFrom fr
+        match geoMatW cfg t (coordLen t) (w == "1") (d == "1") lim fr with
+        | none => pure "ERR:not-present"
+        | some m => pure (showLMat showOpt m)
+    | _ => none
+  | "sentinel" => do
+    -- raw accelerator entries → decoded
+    let raws ← intList? rest
+    match fcSentinel? with
+    | none => pure "ERR:cfg"
+    | some (c, k) => pure (",".intercalate (raws.map fun r => showOpt (decodeFc c k r)))
+  | "adjw" => do
+    let t ← parseTable rest
+    match adjCmp? with
+    | none => pure "ERR:cfg"
+    | some (c, k) =>
+      if !adjShapeOK then pure "ERR:shape" else
+      let m := adjMatW c k t
+      let is := sortedInts (ids t)
+      pure (s!"rows={showInts m.rows} cols={showInts m.cols} # " ++
+        " ".intercalate (is.flatMap fun a => (is.filter fun b => m.get? a b == some true).map fun b => s!"{a}>{b}"))
+  | "distal" => do
+    -- "A ; B" | table   (A, B in the `from` syntax)
+    let (a, tb) ← split2 rest
+    let t ← parseTable tb
+    match a.splitOn ";" with
+    | [x, y] => do
+      let A ← parseFrom (trim x)
+      let B ← parseFrom (trim y)
+      let m := distalW t A B
+      match distalOut m with
+      | .inl v => pure s!"S:{showB v}"
+      | .inr m => pure (showLMat showB m)
+    | _ => none
+  | "distroot" => do
+    -- "weighted idx" | table
+    let (a, tb) ← split2 rest
+    let t ← parseTable tb
+    match words a with
+    | [w, ix] =>
+      let len := lenOf t w
+      let d := if ix == "1" then distToRootIdxW t len else distToRootW t len
+      let keys := sortedInts (Navis.Forest.dedup (d.map (·.1)))
+      pure (" ".intercalate (keys.map fun k => s!"{k}={showOpt (dictGet d k)}"))
+    | _ => none
+  | "pdist" => do
+    -- "nan|<n>" | table
+    let (a, tb) ← split2 rest
+    let t ← parseTable tb
+    let rd ← if a == "nan" then some none else a.toNat?.map some
+    match adjCmp? with
+    | none => pure "ERR:cfg"
+    | some (c, k) => pure (",".intercalate ((parentDistW c k t (coordLen t) rd).map fun o => match o with | some v => toString v | none => "nan"))
+  | "cablemask" => do
+    -- "0101…" | table
+    let (a, tb) ← split2 rest
+    let t ← parseTable tb
+    let mask := a.toList.map (· == '1')
+    match adjCmp? with
+    | none => pure "ERR:cfg"
+    | some (c, k) => pure (toString (cableMaskedW c k t (coordLen t) mask))
+  | "seglen" => do
+    -- "weighted" | table | segs   (weighted is always 1 in navis; 0 counts edges)
+    let (a, tb, sg) ← split3 rest
+    let t ← parseTable tb
+    let segs ← parseSegs sg
+    let len := lenOf t a
+    pure (",".intercalate (segs.map fun s => match segLenW t len s with | some v => toString v | none => "ERR"))
+  | "segsw" => do
+    let (a, tb) ← split2 rest
+    let t ← parseTable tb
+    let len := lenOf t a
+    match segCfg? with
+    | none => pure "ERR:cfg"
+    | some c =>
+      let ss := segmentsW c t len
+      pure (showSegs ss ++ " # " ++ ",".intercalate ((ss.map (pathLen len)).map toString))
+  | "smallsegsw" => do
+    let t ← parseTable rest
+    match brkSeeds?, brkStops? with
+    | some sd, some st => if brkShapeOK then pure (showSegs (canonSegs (smallSegmentsW sd st t))) else pure "ERR:shape"
+    | _, _ => pure "ERR:cfg"
+  | "shapes" => some s!"{showB pointShapeOK} {showB weightShapeOK} {showB viewsOK} {showB brkShapeOK} {showB adjShapeOK}"
+  | "meshgeo" => do
+    -- "n limit from" | edges a:b:w …   → rows from (sorted) × all vertices
+    let (a, eg) ← split2 rest
+    let es ← parseEdges eg
+    match words a with
+    | [n, lim, fr] => do
+      let n ← n.toNat?
+      let lim ← parseLimit lim
+      let fr ← parseFrom fr
+      let rows := match fr with
+        | .none => List.range n
+        | f => (npUnique f.toList).map Int.toNat
+      pure (" ".intercalate (rows.map fun s => s!"{s}=" ++ ",".intercalate ((Navis.MeshGeo.sssp n es s).map fun d => showOpt (applyLimit lim.toOpt d))))
+    | _ => none
   | _ => none
 
 end Navis.Drv.C05Ext
